@@ -90,14 +90,31 @@ Theorem C11_union_assoc : forall s a b c, wf a -> wf b -> wf c ->
   = bind (op_union (VA (norm s b)) (VA (norm s c))) (fun x => op_union (VA (norm s a)) x).
 Proof. exact union_assoc. Qed.
 Print Assumptions C11_union_assoc.
-(* partial: only when both inner intersections are non-empty; otherwise the
-   model (as the code) raises AttributeError — Refuted/C11_assoc.v *)
-Theorem C11_inter_assoc_partial : forall s a b c, wf a -> wf b -> wf c ->
-  empty_rect (meet_rect a b) = false -> empty_rect (meet_rect b c) = false ->
+(* associativity of & on one sheet, unconditional: an empty inner intersection is
+   #NULL!, which the outer operator hands on; the result is the set-theoretic one *)
+Theorem C11_inter_assoc : forall s a b c, wf a -> wf b -> wf c ->
   bind (op_inter (VA (norm s a)) (VA (norm s b))) (fun x => op_inter x (VA (norm s c)))
   = bind (op_inter (VA (norm s b)) (VA (norm s c))) (fun x => op_inter (VA (norm s a)) x).
-Proof. exact inter_assoc_partial. Qed.
-Print Assumptions C11_inter_assoc_partial.
+Proof. exact inter_assoc. Qed.
+Print Assumptions C11_inter_assoc.
+Theorem C11_inter_three : forall s a b c, wf a -> wf b -> wf c ->
+  bind (op_inter (VA (norm s a)) (VA (norm s b))) (fun x => op_inter x (VA (norm s c)))
+  = Ok (if empty_rect (meet_rect (meet_rect a b) c) then VE NULL_ERROR
+        else VA (norm s (meet_rect (meet_rect a b) c))).
+Proof. exact inter_three. Qed.
+Print Assumptions C11_inter_three.
+(* an error-code operand on either side of & or ** is the result *)
+Theorem C11_error_operand : forall e x, is_error_code e = true ->
+  op_inter (VA x) (VE e) = Ok (VE e) /\ op_inter (VE e) (VA x) = Ok (VE e)
+  /\ op_union (VA x) (VE e) = Ok (VE e) /\ op_union (VE e) (VA x) = Ok (VE e).
+Proof. exact error_operand. Qed.
+Print Assumptions C11_error_operand.
+(* ** is associative across ANY sheets: #VALUE! (two named sheets differ) is handed on *)
+Theorem C11_union_assoc_sheets : forall sa sb sc a b c, wf a -> wf b -> wf c ->
+  bind (op_union (VA (norm sa a)) (VA (norm sb b))) (fun x => op_union x (VA (norm sc c)))
+  = bind (op_union (VA (norm sb b)) (VA (norm sc c))) (fun x => op_union (VA (norm sa a)) x).
+Proof. exact union_assoc_sheets. Qed.
+Print Assumptions C11_union_assoc_sheets.
 (* addresses on two different sheets: #VALUE! *)
 Theorem C11_different_sheets : forall x y, a_sheet x <> [] -> a_sheet y <> [] -> a_sheet x <> a_sheet y ->
   op_inter (VA x) (VA y) = Ok (VE VALUE_ERROR) /\ op_union (VA x) (VA y) = Ok (VE VALUE_ERROR).
